@@ -32,6 +32,8 @@ SnOffD    == <<Mod \div 2, Mod \div 2 - 3>>
 
 (* clean path for C18: FIFO, zero delay, nothing lost or duplicated, the reader reads at once; time only passes when *)
 (* nothing is deliverable or readable; flushes happen in rounds (Drive = "tick")                                      *)
+NoPause == {}
+PauseTwo == {2}
 CleanNext ==
   \/ \E e \in Ends, n \in WriteSizes : Send(e, n)
   \/ Deliver(1, 0)
@@ -41,8 +43,8 @@ CleanNext ==
 CleanSpec == Init /\ [][CleanNext]_vars
 
 EdgeOut ==
-  PrintT(<<"EDGE", ToJson([from |-> [s |-> Proj, a |-> act, h |-> <<faults, rd, wr, latch, reinfl, phase>>],
-                           to   |-> [s |-> Proj', a |-> act', h |-> <<faults', rd', wr', latch', reinfl', phase'>>]])>>)
+  PrintT(<<"EDGE", ToJson([from |-> [s |-> Proj, a |-> act, h |-> <<faults, rd, wr, latch, reinfl, phase, healed>>],
+                           to   |-> [s |-> Proj', a |-> act', h |-> <<faults', rd', wr', latch', reinfl', phase', healed'>>]])>>)
 
 (* simulation: print the behaviour (action + projected post-state per step) when it reaches depth SimDepth *)
 =============================================================================
